@@ -7,7 +7,7 @@ from spec import c04 as S
 from checks.C02 import _WS_CTRL, UNRESERVED, _escape_of
 
 BOUNDS = {
-    "quick": "29 transformation families, each around a symbolic hole of length 0..2 (any code points unless stated), quoted in {F,T}; redirect pre-step on 4 skeletons with holes of length 0..2",
+    "quick": "30 transformation families, each around a symbolic hole of length 0..2 (any code points unless stated), quoted in {F,T}; redirect pre-step on 4 skeletons with holes of length 0..2",
     "thorough": "holes of length 0..3",
 }
 STUBS = ["see C01"]
@@ -59,6 +59,10 @@ def transform(st, kind, n, quoted):
         u, v = cat("http://x.fr:443/a", h), cat("https://x.fr:443/a", h)
     elif kind == "scheme-with-port-80":
         u, v = cat("https://x.fr:80/a", h), cat("x.fr:80/a", h)
+    elif kind == "trailing-slash-key":
+        # a path that happens to hold a redirect-like key, in upper case
+        _plain(st, he, "?#")
+        u, v = cat("http://x.fr/a/b&Q=", h), cat("http://x.fr/a/b&Q=", h, "/")
     elif kind == "host-case-platform":
         # letter case of a host that the heuristics look for by name (youtube redirect links)
         u, v = cat("http://www.youtube.com/redirect?q=y.fr/", h), cat("http://WWW.YouTube.Com/redirect?q=y.fr/", h)
@@ -66,11 +70,11 @@ def transform(st, kind, n, quoted):
         _plain(st, he, "?#")
         u, v = cat("http://x.fr/a/b", h), cat("http://x.fr/a/b", h, "/")
     elif kind == "index":
-        # trailing index / default page with a symbolic extension
-        _plain(st, he, "?#/.")
+        # trailing index / default page with a symbolic extension (no dot, raw or escaped: that would be another name)
+        _plain(st, he, "?#/.%")
         u, v = cat("http://x.fr/a"), cat("http://x.fr/a/index.", h) if n else cat("http://x.fr/a/index")
     elif kind == "default-page":
-        _plain(st, he, "?#/.")
+        _plain(st, he, "?#/.%")
         u, v = cat("http://x.fr/a/?k=v"), cat("http://x.fr/a/default.", h, "?k=v") if n else cat("http://x.fr/a/default?k=v")
     elif kind == "fragment":
         _plain(st, he, "")
@@ -78,8 +82,8 @@ def transform(st, kind, n, quoted):
             st.assume(z_not(z_or([ceq(he[0], 47), ceq(he[0], 33)])), "fragment is not client-side routing")
         u, v = cat("http://x.fr/a?k=v"), cat("http://x.fr/a?k=v#", h)
     elif kind == "utm":
-        # a tracking item with symbolic suffix and value, at each position
-        _plain(st, he, "&#=")
+        # a tracking item with symbolic suffix and value, at each position ('?' excluded: '?q=' inside it would be a redirect hint)
+        _plain(st, he, "&#=?")
         st.assume(len(he) > 0, "non-empty")
         pos = n % 3
         items = ["a=1", "b=2"]
@@ -122,7 +126,7 @@ def transform(st, kind, n, quoted):
 
 
 KINDS = ["scheme-https", "scheme-none", "scheme-relative", "userinfo", "www", "www2", "m", "mobile", "amp-dot", "amp-dash", "sub-stack",
-         "default-port", "default-port-https", "host-case", "host-case-platform", "scheme-with-port", "scheme-with-port-80", "trailing-slash", "index", "default-page", "fragment", "utm", "tracking-fixed",
+         "default-port", "default-port-https", "host-case", "host-case-platform", "trailing-slash-key", "scheme-with-port", "scheme-with-port-80", "trailing-slash", "index", "default-page", "fragment", "utm", "tracking-fixed",
          "permutation", "permutation-keys", "amp-entity", "escape-unreserved", "outer-whitespace", "inner-control"]
 
 REDIRECTS = [("http://x.fr/r?u=", ""), ("http://x.fr/r?url=http%3A%2F%2Fy.fr%2F", "&k=v"), ("https://l.x.fr/l.php?next=/", "#f"),
